@@ -88,9 +88,9 @@ Fixpoint has_prefix (p s : string) : bool :=
   | _, EmptyString => false
   end.
 
-Fixpoint contains (s sub : string) : bool :=      (* strings.Contains s sub *)
+Fixpoint str_contains (s sub : string) : bool :=      (* strings.Contains s sub *)
   has_prefix sub s ||
-  match s with EmptyString => false | String _ r => contains r sub end.
+  match s with EmptyString => false | String _ r => str_contains r sub end.
 
 Fixpoint rev_string_acc (s acc : string) : string :=
   match s with EmptyString => acc | String a r => rev_string_acc r (String a acc) end.
